@@ -967,6 +967,9 @@ func (f *fsm) established() (fsmState, error) {
 	}
 
 	to, err := established()
+	// wait for the keepAlive manager to exit before touching the timers it
+	// resets
+	<-kaManagerDoneCh
 	f.cleanupConnAndReader()
 	f.holdTimer.Stop()
 	f.keepAliveTimer.Stop()
